@@ -92,13 +92,97 @@ def match_group(impl, spec, is_cb=False):
     return i == len(impl)
 
 
+def _unhex(s):
+    if s == '-':
+        return b''
+    try:
+        return binascii.unhexlify(s)
+    except Exception:
+        return None
+
+
+def op_topics(op):
+    """the topic names and filters an event line carries (will topic, PUBLISH topic, requested
+    filters) - by position in the line protocol, so that payloads and client ids are not mistaken
+    for topics"""
+    w = op.split()[1:]
+    out = []
+    segs, cur = [], []
+    for x in w:
+        if x == ';':
+            segs.append(cur)
+            cur = []
+        else:
+            cur.append(x)
+    segs.append(cur)
+    for k, v in enumerate(segs):
+        if not v:
+            continue
+        if v[0] in ('first', 'firstp') and len(v) > 7 and v[2] == 'connect':
+            if v[7] != '~':
+                out.append(v[7].split(':')[0])
+            continue
+        if v[0] == 'pkt':
+            v = v[2:]
+        if not v:
+            continue
+        if v[0] in ('publish', 'srvpub') and len(v) > 4:
+            out.append(v[4])
+        elif v[0] == 'subscribe' and len(v) > 2:
+            out.extend(e.split(':')[0] for e in v[2].split(','))
+        elif v[0] == 'unsubscribe' and len(v) > 2:
+            out.extend(v[2].split(','))
+        elif v[0] in ('srvsub', 'srvunsub') and len(v) > 2:
+            out.append(v[2])
+    return [t for t in map(_unhex, out) if t is not None]
+
+
+def sys_topic_event(op):
+    """the event names a topic or filter beginning with '$'.  Such topics are outside the
+    quantifier of the properties (MQTT 3.1.1 4.7.2; DESIGN 14.3).  The reference broker
+    (Spec/Broker.lean) treats them like any other topic - it grants "$SYS/#" and fans a PUBLISH
+    on "$SYS/x" out - whereas this broker turns them away at the topic store.  Neither is demanded
+    by a property, so the oracle leaves the outcome of such an event open (the tie still compares
+    the implementation with the code-shaped model on these lines)."""
+    return any(t.startswith(b'$') for t in op_topics(op))
+
+
+def _sys_pub(item):
+    w = item.split()
+    return len(w) == 7 and w[0] == 'PUB' and w[4].startswith('24')
+
+
+def _drop_sys(items, spec_side):
+    """forwarded or retained copies of messages on topics beginning with '$' are not compared: the
+    reference broker may hold a retained message or a subscription (will topics, earlier '$' events)
+    that this broker refused"""
+    out = []
+    for it in items:
+        if spec_side and (it.startswith('DELIVER{') or it.startswith('RETAINED{')):
+            head = it[:it.index('{')]
+            cs = [c for c in copies_of(it) if not _sys_pub(c)]
+            if not cs and copies_of(it):
+                continue
+            out.append('%s{%s}' % (head, ','.join(cs)))
+        elif _sys_pub(it):
+            continue
+        else:
+            out.append(it)
+    return out
+
+
 def broker_oracle(op, impl, spec):
     if spec == '*' or spec == impl:
         return True
     if impl in ('panic', 'bad-op'):
         return False
+    if sys_topic_event(op):
+        return True
     gi, ei = parse_line(impl)
     gs, es = parse_line(spec)
+    if '24' in impl or '24' in spec:
+        gi = {g: _drop_sys(v, False) for g, v in gi.items()}
+        gs = {g: _drop_sys(v, True) for g, v in gs.items()}
     if ei != es:
         return False
     for g in set(gi) | set(gs):
@@ -129,10 +213,6 @@ def _topics_in(op):
 
 def has_empty_level(prefix):
     return any(t.startswith(b'/') or t.endswith(b'/') or b'//' in t for op in prefix for t in _topics_in(op))
-
-
-def has_dollar_level(prefix):
-    return any(b'/$' in t for op in prefix for t in _topics_in(op))
 
 
 def cb_retain_forward(prefix, impl, spec):
@@ -182,7 +262,7 @@ BROKER_ASSUMPTIONS = [
 
 def mk(pid, module, runs, classes=None):
     register(Prop(pid, module, ['broker'], runs=runs, oracle=broker_oracle, nontrivial=broker_nontrivial,
-                  spec_total=False, unspecified=overlap_episode, classes=dict({'empty_level': has_empty_level, 'dollar_level': has_dollar_level,
+                  spec_total=False, unspecified=overlap_episode, classes=dict({'empty_level': has_empty_level,
                                 'cb_retain_forward': cb_retain_forward}, **(classes or {})),
                   assumptions=BROKER_ASSUMPTIONS, trusted=COMMON_TRUSTED + [
                       "regenerated facts: topics.MaxQosAllowed, message.SupportedVersions, Ackqueue tables"]))
